@@ -377,15 +377,18 @@ func runCase(out *childOut, idx int, id int, c vt.Case) {
 		if !ok {
 			size = -1
 		}
-		if vt.Bool(op["quiet"]) {
-			// priming read that brings the cache into the abstract state of a TLC case: executed, not logged
+		quiet := vt.Bool(op["quiet"]) // priming read of a TLC case: executed, logged only if it dies
+		hit, attr := lc.snapshot(name, size, S)
+		ev := map[string]any{"ev": "op", "case": id, "i": i, "op": op["op"], "name": name, "off": op["off"], "len": op["len"],
+			"read": op["read"], "rec": op["rec"], "size": size, "S": S, "M": M, "hit": hit, "attrhit": attr,
+			"want": doOp(raw, op), "got": answer("panic", nil, "", nil, "the process died inside this read"), "breqs": [][]int64{}}
+		if quiet {
+			ev["in"], ev["kf"] = c, ""
+			out.pending(idx, ev)
 			doOp(cb, op)
 			continue
 		}
-		hit, attr := lc.snapshot(name, size, S)
-		ev := head(map[string]any{"ev": "op", "case": id, "i": i, "op": op["op"], "name": name, "off": op["off"], "len": op["len"],
-			"read": op["read"], "rec": op["rec"], "size": size, "S": S, "M": M, "hit": hit, "attrhit": attr,
-			"want": doOp(raw, op), "got": answer("panic", nil, "", nil, "the process died inside this read"), "breqs": [][]int64{}})
+		ev = head(ev)
 		out.pending(idx, ev)
 		rec.take()
 		ev["got"] = doOp(cb, op)
